@@ -37,6 +37,11 @@ def assigned_paths(stmts):
             elif isinstance(n, ast.Expr) and isinstance(n.value, ast.Call) and isinstance(n.value.func, ast.Name) \
                     and n.value.func.id == "print":
                 add("$nprinted", None)
+            if isinstance(n, ast.Call) and isinstance(n.func, ast.Attribute) and n.func.attr == "add_match":
+                add("$tally", None)
+                add("$tally_key", None)
+            if isinstance(n, ast.AugAssign) and isinstance(n.target, ast.Attribute) and n.target.attr == "reverse_complemented":
+                add("$rc_total", None)
             for t in targets:
                 stack = [t]
                 while stack:
